@@ -19,7 +19,7 @@ RULE = ("a case is a namespace tree on disk (3-12 definitions in 1-3 root direct
         "references / wrong-case spellings / case-variant sibling names / the same name and version in a second same-named "
         "root / missing versions / a namespace component that equals or starts with the short name of a definition inside it, with "
         "relative references at several depths and optionally a same-named definition in the namespace obtained by deleting "
-        "that component) plus read_namespace and read_files calls for several target subsets, and one read_files "
+        "that component / two names equal up to case in different versions referenced with all (spelling, version) combinations) plus read_namespace and read_files calls for several target subsets, and one read_files "
         "call per definition on its own; non-trivial = at least one call returns a type with a nested composite or fails in "
         "resolution; distinct = by hash of the canonical case")
 THEOREMS_NOTE = ("C09_resolve_exact / C09_resolve_never_other / C09_errors fix the outcome of a resolution, C09_terminates / C09_cycles / "
@@ -179,7 +179,7 @@ def spell(base, comps, how, links):
     return os.path.join(base, *comps)
 
 
-def run_query(base, case, q, idmap, variant=None):
+def run_query(base, case, q, idmap, variant=None, err_detail=False):
     """executes one call; returns the canonical observation"""
     import random
     from pathlib import Path
@@ -230,6 +230,12 @@ def run_query(base, case, q, idmap, variant=None):
         ob = {"err": "Other"}
     except Exception as ex:  # pylint: disable=broad-except
         ob = {"err": classify(ex)}
+        if err_detail:
+            # where the error is located, what the handler was told before, which files were opened (never the error text)
+            pth = getattr(ex, "path", None)
+            ob["path"] = idmap.get(os.path.realpath(str(pth)), -1) if pth is not None else None
+            ob["deliv"] = deliv
+            ob["opened"] = sorted(set(idmap.get(p, -1) for p in _STATE["opened"]))
     finally:
         _STATE["opened"] = None
         for ln in links:
@@ -418,7 +424,7 @@ def all_dirs_queries(rng, roots, defs, extra_lookups=None):
 
 
 def gen_case(rng, tier, flavor=None):
-    flavor = flavor or rng.choice(["plain", "plain", "plain", "plain", "cycle", "case", "dup_root", "wrongcase", "self", "twins", "f7", "nsprefix", "nsprefix"])
+    flavor = flavor or rng.choice(["plain", "plain", "plain", "plain", "cycle", "case", "dup_root", "wrongcase", "self", "twins", "f7", "nsprefix", "nsprefix", "casever", "casever"])
     opts = {"print_p": 0.15, "missing_p": 0.015, "badrel_p": 0.015, "fault_p": 0.01}
     if flavor == "cycle":
         opts["cycle_p"] = 0.25
@@ -462,6 +468,8 @@ def gen_case(rng, tier, flavor=None):
             defs.append(mkfile(i + 3, d, "Zq", 1, 0, [["ref", "Yq", 1, 0, 0], ["ref", other, ver[0], ver[1], 0]]))
     if flavor == "nsprefix":
         add_nsprefix(rng, roots[0], defs)
+    if flavor == "casever":
+        add_casever(rng, roots[0], defs)
     qs = all_dirs_queries(rng, roots, defs)
     return {"files": defs, "queries": qs, "flavor": flavor, "dirs": roots}
 
@@ -477,6 +485,25 @@ def make_twin(rng, defs, o, same):
     else:
         c["ext"] = "uavcan" if o["ext"] == "dsdl" else "dsdl"
     return c
+
+
+def add_casever(rng, root, defs, names=None, vers=None):
+    """two definitions whose names differ only by letter case and that exist in DIFFERENT versions; references with every
+    combination of (spelling of one, version of one), relative and absolute, each from a referrer of its own"""
+    up, lo = names or rng.choice([("Item", "item"), ("Item", "iTem"), ("ITEM", "Item"), ("Wx", "wx")])
+    (va, vb) = vers or rng.choice([((1, 0), (2, 0)), ((2, 0), (1, 0)), ((1, 0), (1, 1)), ((0, 1), (1, 0))])
+    d = root + [rng.choice(SUBS[:2]) for _ in range(rng.choice([0, 0, 1]))]
+    ns_name = ".".join([root[-1]] + d[len(root):])
+    i = len(defs)
+    defs.append(mkfile(i, d, up, va[0], va[1], [["plain", 8]]))
+    defs.append(mkfile(i + 1, d, lo, vb[0], vb[1], [["plain", 16]]))
+    n = i + 2
+    combos = [(up, va), (lo, vb), (up, vb), (lo, va)]
+    rng.shuffle(combos)
+    for k, (nm, v) in enumerate(combos[:rng.choice([2, 3, 4, 4])]):
+        name = nm if rng.random() < 0.5 else ns_name + "." + nm
+        defs.append(mkfile(n, d, "R%d" % k, 1, 0, [["ref", name, v[0], v[1], rng.choice([0, 0, 2])], ["plain", 8]]))
+        n += 1
 
 
 def add_nsprefix(rng, root, defs, short=None, comp=None, pre=None, post=None, wrong=None):
@@ -559,6 +586,15 @@ def corpus():
                                    ("thing", ["thing"], [], True), ("Sta", [], ["Sta"], False)]:
         fs = []
         add_nsprefix(__import__("random").Random(7), ns, fs, short=comp if comp in ("Sta", "thing") else "Sta", comp=comp, pre=pre, post=post, wrong=wrong)
+        out.append(mk(fs))
+    # case variants in different versions, all four (spelling, version) references
+    for names, vers in [(("Item", "item"), ((1, 0), (2, 0))), (("Item", "item"), ((2, 0), (1, 0)))]:
+        fs = [mkfile(0, ns, names[0], vers[0][0], vers[0][1], [["plain", 8]]), mkfile(1, ns, names[1], vers[1][0], vers[1][1], [["plain", 16]])]
+        k = 2
+        for nm in names:
+            for v in vers:
+                fs.append(mkfile(k, ns, "R%d" % k, 1, 0, [["ref", nm if k % 2 else "ns." + nm, v[0], v[1], 0]]))
+                k += 1
         out.append(mk(fs))
     # a target that is later reached as a dependency and the other way round (promotion)
     out.append(mk([mkfile(0, ns, "A", 1, 0, [["ref", "Z", 1, 0, 0], ["print"]]), mkfile(1, ns, "Z", 1, 0, [["print"], ["plain", 8]]),
